@@ -573,3 +573,35 @@ PROPS["C14"] = dict(
     assumptions=["Windows VirtualLock/VirtualProtect paths are not executable here", "Locked+NoAccess is only reachable if the OS lets mlock succeed on PROT_NONE memory (Linux does not)"],
     trusted_base=TB_COMMON + ["Linux /proc/self/{maps,smaps,status}", "hook: protected::verif allocator observer (feature verif_hooks)"],
 )
+
+# ---------------------------------------------------------------------------------------------- C15
+
+
+def _c15_floors(m, tier):
+    out = need(m, "release_observed", ["HeapBytes", "HeapByteArray", "Protected<HeapBytes>", "Protected<HeapByteArray>", "object types"], "containers whose release was observed")
+    ph = m.cov.get("plain_history", {})
+    for v in ["drop", "grow", "shrink", "grow_then_shrink", "clone", "truncate", "repeated_growth", "lock_unlock_noaccess"]:
+        if "HeapBytes:" + v not in ph:
+            out.append("HeapBytes history '%s' not run" % v)
+    if len([k for k in ph if k.startswith("object:")]) < 6:
+        out.append("not all 6 object-type histories run")
+    bad = m.cov.get("history_without_release(inconclusive)", {})
+    if bad:
+        out.append("histories that created and dropped a container without any observed release: %s" % dict(bad))
+    return out
+
+
+PROPS["C15"] = dict(
+    level="exploration",
+    technique="runtime invariant monitoring at a hook: the page-aligned allocator reports (address, size, non-zero byte count) immediately before free(); histories of create / fill with zero-free secret / resize / clone / lock / protect / drop are executed and every observed release must have a zero count; valgrind memcheck over a reduced corpus",
+    level_text="The C14 operation sequences (depth 3 quick / 4 thorough, all constructors and lengths) plus dedicated histories over the unprotected HeapBytes / HeapByteArray containers (drop, grow across a "
+               "reallocation, shrink, grow-then-shrink, clone, truncate, repeated growth, lock/unlock/no-access) and over the object types that embed protected containers (LockedBox, locked key pairs, "
+               "precomputed keys, locked signed messages, LockedPwHash, heap DryocBox) run with every container filled with a zero-free pattern; the hook inspects the whole released allocation including spare capacity. "
+               "A history that never observes a release is inconclusive, not held.",
+    level_note="The hook sits after all wiping the crate does and before free(); leaks (allocations never released) are outside the property and only counted.",
+    runs=lambda tier: [dict(build="ni", monitor="c15"), dict(kind="custom", fn=_valgrind("c15"))],
+    floors=_c15_floors,
+    rule="a case is one history (operation sequence or named container history); distinct by enumeration index / (length, variant); evaluations count histories plus individual release events inspected",
+    assumptions=["wiping registers, stack copies or swap is outside the property"],
+    trusted_base=TB_COMMON + ["hook: protected::verif allocator observer (feature verif_hooks), placed immediately before free()"],
+)
